@@ -21,6 +21,12 @@ C11 generated programs, part 2: the array macros (`array::map!`, `map_!`, `from_
  (d) `arr.meth.*`  METHOD HYGIENE: a caller TRAIT in scope whose method has the name of a method the expansion
      calls with method syntax (`$array.len()`, `consumer.next()`, `builder.push(..)`, ..).
 
+ (e) `arr.pat.*` / `arr.safe.pat.*`  PARAMETER PATTERNS with a binding mode: the closure parameter is pasted as the pattern of
+     a `let` of the expansion, so `ref` / `ref mut` / `mut` bind to whatever PLACE stands on the right of that `let`.
+     Observed: `<value>|calls=<k>` (the array is read only when the closure was called N times — fewer calls mean unwritten
+     slots: `UNWRITTEN|calls=<k>`) or `reject`; oracle: std with the same closure. `arr.safe.pat`: an array handed back
+     has all N elements written and equals std's (`ok`), whatever rustc says about the form.
+
 One *unit* = one call site.  Units are compiled together in chunks (in parallel); a chunk that does not compile has
 its units compiled one by one (`--emit=metadata`), the rejected ones answer `reject`, the chunk is rebuilt.  Units
 the generator expects rustc to reject are judged on their own from the start (the verdict that is compared comes
@@ -554,6 +560,82 @@ METHODS = {
 }
 
 
+# ---------------------------------------------------------------------------------------------
+# (e) parameter patterns with a binding mode
+# ---------------------------------------------------------------------------------------------
+
+# form -> (wrapper of the array argument, closure text); every closure computes x -> 2x+1
+PAT_MAP = {
+    "ref": ("{A}", "|ref x| { hit(*x); 2 * *x + 1 }"),
+    "refmut": ("{A}", "|ref mut x| { hit(*x); *x += 1; 2 * *x - 1 }"),
+    "refmut0": ("{A}", "|ref mut x| { hit(*x); 2 * *x + 1 }"),
+    "refmutty": ("{A}", "|ref mut x: u64| -> u64 { hit(*x); *x += 1; 2 * *x - 1 }"),
+    "refmutunused": ("{A}", "|ref mut _x| { let k = 10 + calls() as u64; hit(k); 2 * k + 1 }"),
+    "mut": ("{A}", "|mut x| { hit(x); x += 1; 2 * x - 1 }"),
+    "tupref": ("pairs({A})", "|(ref x, y)| { hit(*x); 2 * *x + 1 + (y - *x - 100) }"),
+    "tuprefmut": ("pairs({A})", "|(ref mut x, y)| { hit(*x); *x += 1; 2 * *x - 1 + (y - *x - 99) }"),
+    "tupmut": ("pairs({A})", "|(mut x, y)| { hit(x); x += 1; 2 * x - 1 + (y - x - 99) }"),
+    "ncref": ("ncs({A})", "|NC(ref v)| { hit(*v); 2 * *v + 1 }"),
+    "ncrefmut": ("ncs({A})", "|NC(ref mut v)| { hit(*v); *v += 1; 2 * *v - 1 }"),
+    "ncmut": ("ncs({A})", "|NC(mut v)| { hit(v); v += 1; 2 * v - 1 }"),
+}
+# every closure computes i -> 3i+2, except `refmut7` (the call site of finding F11d: constant 7)
+PAT_FF = {
+    "ref": "|ref i| { hit(*i as u64); 3 * *i as u64 + 2 }",
+    "refmut": "|ref mut i| { hit(*i as u64); *i += 1; 3 * *i as u64 - 1 }",
+    "refmut0": "|ref mut i| { hit(*i as u64); 3 * *i as u64 + 2 }",
+    "refmutty": "|ref mut i: usize| -> u64 { hit(*i as u64); *i += 1; 3 * *i as u64 - 1 }",
+    "refmut7": "|ref mut i| { hit(*i as u64); *i += 1; 7u64 }",
+    "refmut2": "|ref mut i| { hit(*i as u64); *i += 2; 3 * *i as u64 - 4 }",
+    "refmutunused": "|ref mut _i| { let k = calls() as u64; hit(k); 3 * k + 2 }",
+    "mut": "|mut i| { hit(i as u64); i += 1; 3 * i as u64 - 1 }",
+}
+PAT_LENGTHS = [0, 1, 2, 3, 4]
+
+
+def pat_expect(mac, form):
+    """does rustc accept the call site (what `patVerdict` of the Lean model says)"""
+    if form == "refmutty":
+        return False         # macro grammar: `|$pat:tt : $ty|` — a typed parameter must be ONE token tree (`ref mut x` is three)
+    refmut = "refmut" in form
+    ref = form in ("ref", "tupref", "ncref")
+    if mac == "map":
+        return not refmut                               # `let ref mut x = array[i]`, array: &[T; N]  (E0596)
+    if mac == "map_":
+        return not refmut                               # `let ref mut x = elem`, elem not declared `mut`  (E0596)
+    if mac == "from_fn":
+        return True                                     # `let <pattern> = { i }`: a copy
+    return not ((refmut or ref) and form != "refmutunused")   # from_fn_!: `let <pattern> = i; i += 1;` (E0503 / E0506)
+
+
+def pattern_units(tier):
+    units = []
+    n = 0
+    body = ("    let r: [u64; NN] = {inv};\n"
+            "    if calls() == NN {{ format!(\"{{}}|calls={{}}\", sh(&r), NN) }} else {{ format!(\"UNWRITTEN|calls={{}}\", calls()) }}")
+    for mac in MACS:
+        if mac in ("map", "map_"):
+            for form, (wrap, cl) in PAT_MAP.items():
+                n += 1
+                arr = wrap.format(A="a")
+                exp = pat_expect(mac, form)
+                # a form rustc rejects where std accepts it: a compile-time rejection only, out of scope (drift);
+                # the `arr.safe.pat` row of the same call site is always in scope
+                units.append(Unit(f"q{n}", f"arr.pat.{mac}.{form}", "arr", body.format(inv=f"{mac}!({arr}, {cl})"),
+                                  body.format(inv=f"({arr}).map({cl})"), lengths=PAT_LENGTHS, scope=exp, expect=exp))
+        else:
+            for form, cl in PAT_FF.items():
+                for ann, atext in (("none", ""), ("ty", "[u64; NN] => ")):
+                    n += 1
+                    exp = pat_expect(mac, form)
+                    units.append(Unit(f"q{n}", f"arr.pat.{mac}.{form}.{ann}", "arr", body.format(inv=f"{mac}!({atext}{cl})"),
+                                      body.format(inv=f"core::array::from_fn({cl})"), lengths=PAT_LENGTHS, scope=exp,
+                                      expect=exp,
+                                      # F11d: as found, `ref mut` borrowed from_fn!'s own loop counter
+                                      regress=(mac == "from_fn" and form in ("refmut", "refmutty", "refmut7", "refmut2"))))
+    return units
+
+
 def method_units(tier):
     units = []
     n = 0
@@ -660,12 +742,13 @@ def check_individually(wd, units, stats):
 def _is_reg(req, regset):
     """does the row belong to a regression unit (request = unit request + length [+ stream])"""
     parts = req.split(" ")
+    parts[0] = parts[0].replace("arr.safe.pat.", "arr.pat.", 1)
     return any(" ".join(parts[:k]) in regset for k in range(1, len(parts)))
 
 
 def all_units(tier):
     return (eval_units(tier) + position_units(tier) + hygiene_units(tier) + cc_hygiene_units(tier)
-            + method_units(tier))
+            + method_units(tier) + pattern_units(tier))
 
 
 def generate(ctx):
@@ -714,6 +797,14 @@ def generate(ctx):
             if len(p) != 4:
                 raise RuntimeError("malformed line from generated program: " + line[:200])
             rows.append((p[0], p[1], p[2], p[3] == "in"))
+    # `arr.safe.pat`: the property's own oracle for every parameter-pattern call site, always in scope: no array
+    # (reject / panic) or the array std returns, fully written
+    srows = []
+    for req, imp, ora, ins in rows:
+        if req.startswith("arr.pat."):
+            ok = imp in ("reject", "panic") or imp == ora
+            srows.append((req.replace("arr.pat.", "arr.safe.pat.", 1), "ok" if ok else imp, "ok", True))
+    rows += srows
     # compile verdicts of the hygiene units (the std program with the same items is part of every chunk: accept)
     crows = [(u.compile_req, "reject" if u.rejected else "accept", "accept", u.scope, u.regress) for u in units if u.compile_req]
     regset = {u.req for u in reg}
